@@ -434,17 +434,22 @@ def mergeLoop (cmp : Tree → Tree → Ordering) (g : Granularity) (sp : SharedP
       | .error e => .error e
       | .ok result' => mergeLoop cmp g sp ts result'
 
-/-- `Itertools::unique` with `Hash`/`Eq for UseTree` = **path only** (imports.rs:124-129, 891-895):
-keeps the first occurrence of every path, whatever its visibility, attributes or comments. -/
-def uniqueByPath : List Item → List Item → List Item
-  | [], _ => []
-  | t :: ts, seen =>
-    if seen.any (fun s => treeBEq s.tree t.tree) then uniqueByPath ts seen
-    else t :: uniqueByPath ts (seen ++ [t])
+/-- `UseTree::is_repeated_by`: `other` imports the same path under the same visibility, and neither
+has attributes or comments (`PartialEq for UseTree` alone compares paths only). -/
+def isRepeatedBy (self other : Item) : Bool :=
+  treeBEq self.tree other.tree && sameVis self.vis other.vis && self.attrs.isNone &&
+    other.attrs.isNone && !self.hasComment && !other.hasComment
 
-/-- imports.rs:252-264 `flatten_use_trees`. -/
+/-- The loop of `flatten_use_trees`: a tree is pushed unless an earlier kept one `is_repeated_by` it. -/
+def dedupItems : List Item → List Item → List Item
+  | [], result => result
+  | t :: ts, result =>
+    if result.any (fun s => isRepeatedBy s t) then dedupItems ts result
+    else dedupItems ts (result ++ [t])
+
+/-- `flatten_use_trees`. -/
 def flattenUseTrees (g : Granularity) (ts : List Item) : List Item :=
-  uniqueByPath ((ts.flatMap (flattenItem g)).map nestItem) []
+  dedupItems ((ts.flatMap (flattenItem g)).map nestItem) []
 
 /-- imports.rs:215-250 `normalize_use_trees_with_granularity`. -/
 def withGranularity (cmp : Tree → Tree → Ordering) (g : Granularity) (ts : List Item) :
@@ -682,11 +687,6 @@ end RF.Imports
 
 namespace RF.Imports
 
-/-- Hypothesis of `granularity_item_leaves_partial`: no import (path and alias) occurs twice in the
-run with different visibility or attributes (`unique()` would keep only the first). -/
-def dupSameKey (ls : List ItemLeaf) : Bool :=
-  ls.all fun x => ls.all fun y => !(x.leaf == y.leaf) || (x.vis == y.vis && x.attrs == y.attrs)
-
 /-- Every item of the run has nested trees with non-empty paths only (true of parser output). -/
 def neRun (its : List Item) : Bool := its.all fun it => nePath it.tree.path
 
@@ -695,12 +695,12 @@ end RF.Imports
 namespace RF.Imports
 
 /-- The hypothesis under which `normalize_use_trees_with_granularity g` is proved to keep the leaf
-set of (already normalised) items: nothing for `Preserve`; no duplicate import with different
-visibility/attributes for `Item` (finding: `unique()` compares paths only); `safeRun` otherwise. -/
+set of (already normalised) items: nothing for `Preserve`; non-empty
+nested paths for `Item`; `safeRun` otherwise. -/
 def safeFor (g : Granularity) (its : List Item) : Bool :=
   match g with
   | .preserve => true
-  | .item => neRun its && dupSameKey (runLeaves its)
+  | .item => neRun its
   | .crate => safeRun .crate its
   | .module => safeRun .module its
   | .one => safeRun .one its
